@@ -12,7 +12,7 @@ import SmoothProofs.C01SE3
 
 open Lin Scalar
 
-namespace C17
+namespace C17P
 
 /-! ### `SO3(quaternion)` -/
 
@@ -330,4 +330,4 @@ theorem lift_se3_injective (a b : Vec ℝ 4) (ha : SE2Unit a) (hb : SE2Unit b)
     (h : Conv.lift_se3 a = Conv.lift_se3 b) : a = b := by
   rw [← project_lift_se a ha, ← project_lift_se b hb, h]
 
-end C17
+end C17P
